@@ -1,13 +1,16 @@
 #!/bin/sh
-# usage: tools/try_seed.sh <patch.diff> <ID> [<ID> ...]   (applies the seeded
-# change to /repo, runs the quick checks, always restores /repo)
+# usage: tools/try_seed.sh <patch.diff> <ID> [<ID> ...]
+# Applies the seeded change to a scratch COPY of /repo's working tree (never to
+# /repo itself, so that other runs using /repo are not disturbed), runs the
+# quick checks against that copy (VERIF_REPO_SRC) and removes the copy.
 patch="$1"; shift
-cd /repo || exit 2
-if [ -n "$(git status --porcelain)" ]; then echo "/repo not clean"; exit 2; fi
-trap 'git -C /repo checkout -- . ; git -C /repo clean -fdq' EXIT INT TERM
-git apply "$patch" || exit 2
+T=$(mktemp -d /tmp/seedtree.XXXXXX)
+trap 'rm -rf "$T"' EXIT INT TERM
+cp -r /repo/src "$T/src"
+find "$T" -name __pycache__ -type d -prune -exec rm -rf {} + 2>/dev/null
+(cd "$T" && git apply "$patch") || { echo "patch does not apply"; exit 2; }
 cd /verif
 for id in "$@"; do
-  out=$(VERIF_EVIDENCE_DIR=/tmp/verif-seed-evidence ./check "$id" --tier "${TIER:-quick}" 2>&1 | grep -E "^(VIOLATION|OK|KNOWN|MACHINERY)" | cut -c1-260)
+  out=$(VERIF_REPO_SRC="$T/src" VERIF_EVIDENCE_DIR="$T/evidence" ./check "$id" --tier "${TIER:-quick}" 2>&1 | grep -E "^(VIOLATION|OK|KNOWN|MACHINERY)" | cut -c1-260)
   echo "[$id] $out"
 done
